@@ -60,6 +60,7 @@ type Ctx struct {
 	violations   []string // VIOLATION lines
 	knownSeen    map[string]bool
 	inconclusive []string
+	unreproduced []string
 	zeroCoverage []string
 	exhaustive   bool
 	rule         string
@@ -128,6 +129,20 @@ func (c *Ctx) Assume(s string) {
 	c.mu.Lock()
 	c.assumptions = append(c.assumptions, s)
 	c.mu.Unlock()
+}
+
+// Unreproduced records a rejection of a timing-dependent (concurrent, free-running or real-process) run that
+// re-execution did not confirm. Verdicts only come from reproduced behaviour, so it is not a violation; and one such
+// event is what racing runs on a loaded machine produce now and then, so it does not make the run inconclusive either:
+// it is listed in the evidence. More than three in one run point at a problem of the machinery: inconclusive.
+func (c *Ctx) Unreproduced(format string, a ...interface{}) {
+	c.mu.Lock()
+	c.unreproduced = append(c.unreproduced, fmt.Sprintf(format, a...))
+	n := len(c.unreproduced)
+	c.mu.Unlock()
+	if n == 4 {
+		c.Inconclusive("more than three rejected runs did not reproduce (see unreproduced_rejections in the evidence)")
+	}
 }
 
 func (c *Ctx) Inconclusive(format string, a ...interface{}) {
@@ -210,6 +225,9 @@ func (c *Ctx) Finish() int {
 	if len(c.inconclusive) > 0 {
 		cov["inconclusive"] = c.inconclusive
 	}
+	if len(c.unreproduced) > 0 {
+		cov["unreproduced_rejections"] = c.unreproduced
+	}
 	ev := Evidence{PropertyID: c.Prop, Tier: c.Tier, Seed: c.Seed, Level: "model_checking", Coverage: cov,
 		Assumptions: c.assumptions, WallS: time.Since(c.Start).Seconds(), Violations: len(c.violations)}
 	if ev.Assumptions == nil {
@@ -220,6 +238,9 @@ func (c *Ctx) Finish() int {
 	_ = os.WriteFile(filepath.Join(verifRoot, "evidence", c.Prop+".json"), append(b, '\n'), 0644)
 	fmt.Printf("[%s %s seed=%d] states=%d transitions=%d traces=%d events=%d evaluations=%d nontrivial=%d violations=%d known=%s wall=%.1fs\n",
 		c.Prop, c.Tier, c.Seed, c.states, c.transitions, c.traces, c.events, c.evaluations, len(c.nontrivial), len(c.violations), strings.Join(ks, ","), ev.WallS)
+	for _, s := range c.unreproduced {
+		fmt.Println("note (not reproduced, not reported):", s)
+	}
 	if len(c.violations) > 0 {
 		return 1
 	}
